@@ -432,8 +432,8 @@ func (s *connScn) run(nSteps, maxCalls int, profile string) {
 		var opts []opt
 		if len(s.calls) < maxCalls {
 			opts = append(opts, opt{6, func() {
-				direct := s.q <= 1 || s.rng.Intn(3) == 0
-				app := direct && s.rng.Intn(3) == 0
+				direct := s.q <= 1 || s.rng.Intn(3) == 0 || (profile == "write" && s.rng.Intn(4) != 0)
+				app := direct && (s.rng.Intn(3) == 0 || (profile == "write" && s.rng.Bool()))
 				c := s.newCall(direct, app)
 				unsendable := direct && !app && s.rng.Intn(7) == 0
 				if unsendable {
@@ -582,7 +582,7 @@ func (s *connScn) run(nSteps, maxCalls int, profile string) {
 						s.log(fmt.Sprintf("rd:%d:%s", w.id, desc))
 					}})
 				}
-				if profile != "corr" {
+				if profile != "corr" && profile != "write" {
 					opts = append(opts, opt{failW, func() {
 						s.v.take(g)
 						if s.rng.Bool() {
@@ -609,7 +609,7 @@ func (s *connScn) run(nSteps, maxCalls int, profile string) {
 						s.log(fmt.Sprintf("rd:%d:res", id))
 					}})
 				}
-				if s.v.DeadlineSet() && profile != "corr" {
+				if s.v.DeadlineSet() && profile != "corr" && profile != "write" {
 					opts = append(opts, opt{2, func() {
 						s.v.take(g)
 						g.ch <- gateRes{err: vtimeout{}}
@@ -729,6 +729,73 @@ func (s *connScn) recheck() {
 	}
 }
 
+// streamCheck parses everything that was written successfully, in the order the Write calls
+// completed: the hello, then whole frames (length prefix = bytes that follow, a header that
+// decodes, a request, and a cellblock of exactly the announced length that splits into KeyValues).
+// An incomplete frame is tolerated only at the very end (its last units were never written).
+func (s *connScn) streamCheck() string {
+	s.v.mu.Lock()
+	var b []byte
+	for _, u := range s.v.written {
+		b = append(b, u...)
+	}
+	s.v.mu.Unlock()
+	if len(b) < 10 || string(b[:4]) != "HBas" {
+		return "broken-preamble"
+	}
+	hl := int(binary.BigEndian.Uint32(b[6:10]))
+	if len(b) < 10+hl {
+		return "broken-hello"
+	}
+	b = b[10+hl:]
+	n := 0
+	for len(b) > 0 {
+		if len(b) < 4 {
+			return "ok"
+		}
+		total := int(binary.BigEndian.Uint32(b))
+		if total > 1<<20 {
+			return fmt.Sprintf("broken-length-prefix-frame%d", n)
+		}
+		if len(b) < 4+total {
+			// possibly a frame whose last unit failed: must at least start like a frame
+			hb, k := protowire.ConsumeBytes(b[4:])
+			var h pb.RequestHeader
+			if k < 0 || proto.Unmarshal(hb, &h) != nil || h.CallId == nil {
+				return fmt.Sprintf("broken-trailing-frame%d", n)
+			}
+			return "ok"
+		}
+		body := b[4 : 4+total]
+		hb, k := protowire.ConsumeBytes(body)
+		var h pb.RequestHeader
+		if k < 0 || proto.Unmarshal(hb, &h) != nil || h.CallId == nil || h.MethodName == nil {
+			return fmt.Sprintf("broken-header-frame%d", n)
+		}
+		_, k2 := protowire.ConsumeBytes(body[k:])
+		if k2 < 0 {
+			return fmt.Sprintf("broken-request-frame%d", n)
+		}
+		cb := body[k+k2:]
+		if uint32(len(cb)) != h.GetCellBlockMeta().GetLength() {
+			return fmt.Sprintf("broken-cellblock-length-frame%d", n)
+		}
+		for len(cb) > 0 {
+			if len(cb) < 4 || len(cb) < 4+int(binary.BigEndian.Uint32(cb)) {
+				return fmt.Sprintf("broken-cellblock-cells-frame%d", n)
+			}
+			kv := cb[4 : 4+int(binary.BigEndian.Uint32(cb))]
+			if len(kv) < 8 || int(binary.BigEndian.Uint32(kv))+int(binary.BigEndian.Uint32(kv[4:]))+8 != len(kv) {
+				return fmt.Sprintf("broken-cellblock-cells-frame%d", n)
+			}
+			cb = cb[4+len(kv):]
+		}
+		b = b[4+total:]
+		n++
+	}
+	return "ok"
+}
+
 func (s *connScn) line(model string) string {
 	s.debugStranded()
 	s.recheck()
@@ -754,6 +821,9 @@ func (s *connScn) line(model string) string {
 	status := "complete"
 	if s.broken != "" {
 		status = "broken:" + strings.ReplaceAll(s.broken, " ", "_")
+	}
+	if model == "c05c" {
+		status = status + ",stream=" + s.streamCheck()
 	}
 	return fmt.Sprintf("%s run %d %s cancelled=%s foreign=%s %s", model, s.q, status, j(cx), j(foreign),
 		strings.Join(s.steps, " "))
@@ -816,6 +886,9 @@ func connProp(model, profile string) propFn {
 			}
 		}
 		prop := strings.ToUpper(model)
+		if model == "c05c" {
+			prop = "C05"
+		}
 		runSharded(prop, tier, seed, out, 16, func(shard, nsh int, emit func(string)) {
 			for i := shard; i < n; i += nsh {
 				rng := NewRNG(seed, fmt.Sprintf("%s-%d", model, i))
@@ -834,4 +907,15 @@ func init() {
 	props["C03"] = connProp("c03", "fail")
 	props["C18"] = connProp("c18", "idle")
 	props["C02"] = connProp("c02", "corr")
+	// C05, concurrent senders on a connection that is not a *net.TCPConn: several goroutines send
+	// unbatched Gets and Appends (two Write units each) and batched calls at once; what reaches the
+	// connection must still be a sequence of whole frames. (The sequential part of C05 is in c05.go.)
+	c05fn := props["C05"]
+	c05conc := connProp("c05c", "write")
+	props["C05"] = func(tier string, seed uint64, out *Out) {
+		if os.Getenv("VERIF_SHARD") == "" && c05fn != nil {
+			c05fn(tier, seed, out)
+		}
+		c05conc(tier, seed, out)
+	}
 }
